@@ -109,6 +109,7 @@ def explore_cfg(args):
                    for e in t["edges"] if e["act"]["op"] == "watchdog" and any(x[1] != "deadlock" for x in e["obs"].get("events", []))), None)
     return {"cfg": c, "edges": len(t["edges"]), "states": t["states"], "truncated": t["truncated"], "audit": t["audit_fail"],
             "fails": fails, "drift": len(dr), "tlc": {k: r.get(k) for k in ("distinct", "generated")}, "kills": kills, "sample": sample,
+            "drift_samples": [{"cfg": c, "from": "exploration", "path": t["paths"][k], "obs": t["edges"][k - 1]["obs"], "post": t["edges"][k - 1]["post"]} for k in sorted(dr)[:2]],
             "nontrivial": sum(1 for e in t["edges"] if not e["leaf"])}
 
 
@@ -127,6 +128,8 @@ def simulate_cfg(args):
                 a["op"] = o["op"]
             if a["op"] not in ("watchdog", "start", "tick", "kill") and a["o"] not in w["c"].active_operations:
                 break
+            if a["op"] == "start" and a["o"] in w["c"].active_operations:      # the specification chose another victim earlier: the rest of the behaviour is not a behaviour of the code
+                break
             obs = ad.apply(w, a)
             post = ad.project(w)
             if post["owner"] != dict(st["owner"]) or sorted(st["active"]) != post["active"] or post["phase"] != dict(st["phase"]):
@@ -136,7 +139,15 @@ def simulate_cfg(args):
     tree = explore.chains_to_tree(chains)
     tree["header"]["root"] = ad.project(ad.make())
     r, pf, dr = conform.walk_tree("Trace_CoordTimed", tree, constants(c), "coordtimedsim")
+    def history(k):
+        acts = []
+        while k:
+            e = tree["edges"][k - 1]
+            acts.append(e["act"])
+            k = e["parent"]
+        return acts[::-1]
     return {"cfg": c, "behaviours": len(chains), "steps": len(tree["edges"]), "mismatch": mism, "drift": len(dr),
+            "drift_samples": [{"cfg": c, "from": "tlc-simulate", "path": history(k), "obs": tree["edges"][k - 1]["obs"], "post": tree["edges"][k - 1]["post"]} for k in sorted(dr)[:2]],
             "fails": conform.fails_from(pf, tree, sig, {"cfg": c, "from": "tlc-simulate"})}
 
 
@@ -270,6 +281,8 @@ def simulate_inherit(args):
             o = st["obs"]
             a = {"op": o["op"], "o": o["o"], "r": o["r"]}
             if a["op"] not in ("watchdog", "start", "tick", "kill", "boost", "clear") and a["o"] not in w["c"].active_operations:
+                break
+            if a["op"] == "start" and a["o"] in w["c"].active_operations:
                 break
             obs = ad.apply(w, a)
             post = ad.project(w)
